@@ -10,8 +10,14 @@
  * the PEM code can be explored behind the known strstr over-read.
  *
  * On parse success a consistency walker visits the returned object (see
- * walk_*): every (ptr,len) pair lies inside a live allocation, documented C
- * strings are terminated, lists are bounded; then the object is freed with
+ * walk_*): every (ptr,len) pair lies inside a live allocation (a value that
+ * cannot be a pointer at all - e.g. two enum values written over it - is
+ * reported, not dereferenced), a NULL pointer has no length, documented C
+ * strings are terminated, lists are bounded, scalar members have values of
+ * their closed sets, attributeOrder[] of every parsed name (subject, issuer,
+ * CRL issuer, authorityKeyIdentifier issuer) holds valid ids without gaps and
+ * agrees with the stored values, and the name accessors / one-line printers
+ * (both print orders) return what they report; then the object is freed with
  * its proper free function, and LeakSanitizer (libFuzzer -detect_leaks=1)
  * must stay silent.  A walker inconsistency prints "C09-WALKER: <key>" and
  * abort()s.
